@@ -3,10 +3,22 @@
 A history is a list of protocol lines (see lean/Drivers/C01.lean).  Keys are model numbers 0..n-1 and map
 to the strings 'a','b',...; values are `i:<int>` (Python int), `t:<n>` (the string 't<n>') and `n` (None);
 TTLs and time advances are ticks of 1/8 s.
+
+Purge sweeps.  With the purge task on, the real `Memory._remove_expired` runs on the virtual loop next to the
+harness task.  The harness does not look at HOW the purge is implemented: the backend under test is a
+subclass of `Memory` whose `store` attribute is a `LoggedStore` (an `OrderedDict` that reports every mutation,
+and every re-binding of the attribute, together with the task that made it).  Everything a task other than the
+harness's own does to the store is *background* activity; the background mutations of one virtual instant that
+are not separated by an application command form one **sweep** and are spliced into the effective history as
+one `purge` line (with the store content right after them).  Whether that sweep did what the model's atomic
+`purge` does is then decided by the ordinary comparison (impl vs model vs spec / property oracle) - a purge
+that works differently is never harness trouble.  A sweep that suspends between two keys shows up as several
+`purge` lines at one instant with application commands between them.
 """
 from __future__ import annotations
 
 import asyncio
+from collections import OrderedDict
 
 from . import vtime
 from .vtime import CLOCK
@@ -48,55 +60,180 @@ CONFIGS = {
     # name: (how the backend is built, commands through the Cache facade?, purge interval in ticks or 0)
     "raw": dict(facade=False, purge=0, url=None),
     "raw_purge": dict(facade=False, purge=8, url=None),
-    "facade": dict(facade=True, purge=0, url="mem://?size={size}&check_interval=0"),
-    "facade_purge": dict(facade=True, purge=8, url="mem://?size={size}&check_interval=1"),
-    "facade_secret": dict(facade=True, purge=0, url="mem://?size={size}&check_interval=0&secret=s3cr3t&digestmod=sha1"),
-    "facade_pickle": dict(facade=True, purge=0, url="mem://?size={size}&check_interval=0&pickle_type=default"),
+    "facade": dict(facade=True, purge=0, url="vmem://?size={size}&check_interval=0"),
+    "facade_purge": dict(facade=True, purge=8, url="vmem://?size={size}&check_interval=1"),
+    "facade_secret": dict(facade=True, purge=0, url="vmem://?size={size}&check_interval=0&secret=s3cr3t&digestmod=sha1"),
+    "facade_pickle": dict(facade=True, purge=0, url="vmem://?size={size}&check_interval=0&pickle_type=default"),
 }
+
+
+# ------------------------------------------------------------------------------------------------
+# the observed store
+
+_ACTIVE: "Runner | None" = None      # the runner whose backend is being observed (one at a time)
+
+
+class LoggedStore(OrderedDict):
+    """An `OrderedDict` that tells the active runner about every mutation, after it happened.  Reads are not
+    reported.  (CPython's C implementation routes some mutators of a *subclass* through others - `pop` through
+    `__delitem__`, the constructor through `__setitem__` - hence the re-entrancy counter.)"""
+
+    _quiet = 0
+
+    def __init__(self, *args, **kwargs):
+        self._quiet = 1
+        try:
+            super().__init__(*args, **kwargs)
+        finally:
+            self._quiet = 0
+
+    def _note(self, op, key):
+        if not self._quiet and _ACTIVE is not None:
+            _ACTIVE._mutation(op, key, self)
+
+    def _do(self, op, key, fn, *args):
+        self._quiet += 1
+        try:
+            r = fn(*args)
+        finally:
+            self._quiet -= 1
+        self._note(op, key)
+        return r
+
+    def __setitem__(self, key, value):
+        return self._do("set", key, super().__setitem__, key, value)
+
+    def __delitem__(self, key):
+        return self._do("del", key, super().__delitem__, key)
+
+    def pop(self, key, *default):
+        if key not in self:
+            return super().pop(key, *default)
+        return self._do("del", key, super().pop, key)
+
+    def popitem(self, last=True):
+        self._quiet += 1
+        try:
+            k, v = super().popitem(last)
+        finally:
+            self._quiet -= 1
+        self._note("del", k)
+        return k, v
+
+    def move_to_end(self, key, last=True):
+        return self._do("move", key, super().move_to_end, key, last)
+
+    def clear(self):
+        return self._do("clear", None, super().clear)
+
+    def update(self, *args, **kwargs):
+        for k, v in OrderedDict(*args, **kwargs).items():
+            self[k] = v
+
+    def setdefault(self, key, default=None):
+        if key not in self:
+            self[key] = default
+        return self[key]
+
+    def __ior__(self, other):
+        self.update(other)
+        return self
+
+
+_instr: dict = {}
+
+
+def observed_memory():
+    """`Memory` with an observed `store` attribute (every re-binding, e.g. by `clear()`, is wrapped and reported
+    too); registered once as the cashews backend alias `vmem://`."""
+    if "cls" not in _instr:
+        from cashews.backends.memory import Memory
+        from cashews.wrapper.backend_settings import register_backend
+
+        class ObservedMemory(Memory):
+            @property
+            def store(self):
+                return self.__dict__["_observed_store"]
+
+            @store.setter
+            def store(self, value):
+                first = "_observed_store" not in self.__dict__
+                if not isinstance(value, LoggedStore):
+                    value = LoggedStore(value)
+                self.__dict__["_observed_store"] = value
+                if not first and _ACTIVE is not None:
+                    _ACTIVE._mutation("rebind", None, value)
+
+        register_backend("vmem", ObservedMemory)
+        _instr["cls"] = ObservedMemory
+    return _instr["cls"]
 
 
 class Runner:
     """Executes one history on the real code and returns the *effective* model lines with the
-    implementation's canonical outputs (purge sweeps that really happened are spliced in as `purge`)."""
+    implementation's canonical outputs (what the purge task really did is spliced in as `purge` lines)."""
+
+    snapshot = None     # subclasses: store -> canonical content; taken after every background mutation
 
     def __init__(self, cfg: str, size: int):
         self.cfg = CONFIGS[cfg]
         self.size = size
-        self.sweeps: list[float] = []
         self.stats: dict[str, int] = {}
         self.backend = None
+        self.main_task = None
+        self.recs: list[dict] = []
+        self.bg: list[dict] = []            # background activity not yet spliced in: groups {t, ops, snap}
+        self._sweep_idx = None              # index in `recs` of the latest `purge` line ...
+        self._sweep_t = None                # ... its instant ...
+        self._cmd_since_sweep = True        # ... and whether an application command ran since
+        self._cmd_t = None                  # instant of the latest application command
 
     def _bump(self, k: str):
         self.stats[k] = self.stats.get(k, 0) + 1
 
-    async def _setup(self):
-        from cashews import Cache
-        from cashews.backends.memory import Memory
+    # ---- observation of the store ------------------------------------------------------------------
+    def _mutation(self, op, key, store):
+        if self.backend is None or asyncio.current_task() is self.main_task:
+            return
+        try:
+            if store is not self.backend.store:
+                return
+        except KeyError:
+            return
+        g = self.bg[-1] if self.bg else None
+        if g is None or g["t"] != CLOCK.t:
+            g = {"t": CLOCK.t, "ops": [], "snap": None}
+            self.bg.append(g)
+        g["ops"].append((op, key))
+        if self.snapshot is not None:
+            g["snap"] = self.snapshot(store)
 
+    def _take_groups(self) -> list[dict]:
+        groups, self.bg = self.bg, []
+        return groups
+
+    async def _setup(self):
+        global _ACTIVE
+        from cashews import Cache
+
+        cls = observed_memory()
+        self.main_task = asyncio.current_task()
         if self.cfg["facade"]:
             cache = Cache()
             backend = cache.setup(self.cfg["url"].format(size=self.size))
+            self.backend = backend
+            _ACTIVE = self
             await cache.init()
             self.api = cache
         else:
-            backend = Memory(size=self.size, check_interval=self.cfg["purge"] / 8)
+            backend = cls(size=self.size, check_interval=self.cfg["purge"] / 8)
+            self.backend = backend
+            _ACTIVE = self
             await backend.init()
             self.api = backend
-        self.backend = backend
         if self.cfg["purge"]:
-            # make the sweeps of the real purge task observable: its per-key reads come from that task
-            purge_task = getattr(backend, "_Memory__remove_expired_task")
-            orig_get = backend.get
-            runner = self
-
-            async def get(key, default=None):
-                if asyncio.current_task() is purge_task:
-                    if not runner.sweeps or runner.sweeps[-1] != CLOCK.t:
-                        runner.sweeps.append(CLOCK.t)
-                return await orig_get(key, default=default)
-
-            backend.get = get
-            await asyncio.sleep(0)
+            await asyncio.sleep(0)          # the purge task starts (its first tick finds an empty store)
+            self._take_groups()
 
     def _expired_unpurged(self, key: str) -> bool:
         ent = self.backend.store.get(key)
@@ -158,39 +295,91 @@ class Runner:
             return "U"
         raise ValueError(f"bad op {w}")
 
-    async def run(self, ops: list[str]) -> list[tuple[str, str]]:
-        await self._setup()
-        eff: list[tuple[str, str]] = []
-        for line in ops:
-            w = line.split()
-            if w[0] == "adv":
-                dt = int(w[1])
-                if not self.cfg["purge"]:
-                    CLOCK.advance(dt)
-                    eff.append((line, "U"))
-                    continue
-                start = CLOCK.t
-                self.sweeps.clear()
-                await vtime.vsleep(dt)
-                cur = start
-                for s in self.sweeps:
-                    eff.append((f"adv {round((s - cur) * 8)}", "U"))
-                    eff.append(("purge", "U"))
-                    cur = s
-                eff.append((f"adv {round((CLOCK.t - cur) * 8)}", "U"))
-                self.sweeps.clear()
-                if round((CLOCK.t - start) * 8) != dt:
-                    eff.append(("?clock", f"slept {dt} ticks but clock moved {(CLOCK.t - start) * 8}"))
-                self._bump("purge_sweeps_spliced")
+    # ---- effective history -------------------------------------------------------------------------
+    async def _rec(self, line: str, out: str, snap=None, now=None):
+        """append one effective line (`snap`/`now`: the store content / instant it stands for, when that is not
+        the present one)"""
+        self.recs.append({"line": line, "out": out})
+
+    def _current_snap(self):
+        return None if self.snapshot is None else self.snapshot(self.backend.store)
+
+    def _merge_into_sweep(self, idx: int, snap):
+        """more background activity at the instant of the sweep recorded at `idx`, no application command in
+        between: it is part of that sweep"""
+
+    async def _sweep(self, g: dict):
+        await self._rec("purge", "U", snap=g["snap"], now=g["t"])
+        self.recs[-1]["bg_ops"] = list(g.get("ops", ()))
+        if self._sweep_t == g["t"]:
+            # a second piece of purge activity at the same instant, application commands in between: the
+            # sweep suspended part-way and the application got in
+            self._bump("sweep_split_by_commands")
+        self._sweep_idx, self._sweep_t, self._cmd_since_sweep = len(self.recs) - 1, g["t"], False
+        self._bump("purge_sweeps_spliced")
+
+    async def _advance(self, line: str, dt: int):
+        if not self.cfg["purge"]:
+            CLOCK.advance(dt)
+            await self._rec(line, "U")
+            return
+        start = CLOCK.t
+        last = self._current_snap()
+        await vtime.vsleep(dt)
+        cur = start
+        for g in self._take_groups():
+            if g["t"] == start and g["t"] == self._sweep_t and not self._cmd_since_sweep:
+                self._merge_into_sweep(self._sweep_idx, g["snap"])
+                self.recs[self._sweep_idx]["bg_ops"] += g["ops"]
+                self._bump("sweep_continued_after_idle_yield")
+                last = g["snap"]
                 continue
-            try:
-                out = await self._exec(w)
-            except Exception as exc:  # an exception class the model does not know is itself a disagreement
-                out = f"X:{type(exc).__name__}"
-            eff.append((line, out))
-        if hasattr(self.api, "close"):
-            await self.api.close()
-        return eff
+            await self._rec(f"adv {round((g['t'] - cur) * 8)}", "U", snap=last, now=g["t"])
+            if g["t"] == self._cmd_t:
+                self._bump("sweep_at_the_instant_of_a_command_after_it")
+            await self._sweep(g)
+            cur, last = g["t"], g["snap"]
+        if self.snapshot is not None and self._current_snap() != last:
+            # the store differs from what the observed mutations left: something changed it behind the
+            # observation.  Still translated faithfully: an unattributed sweep at the end of the advance.
+            self._bump("unattributed_store_change")
+            await self._rec(f"adv {round((CLOCK.t - cur) * 8)}", "U", snap=last, now=CLOCK.t)
+            await self._sweep({"t": CLOCK.t, "snap": self._current_snap()})
+            cur = CLOCK.t
+        await self._rec(f"adv {round((CLOCK.t - cur) * 8)}", "U")
+        if round((CLOCK.t - start) * 8) != dt:
+            await self._rec("?clock", f"slept {dt} ticks but clock moved {(CLOCK.t - start) * 8}")
+
+    async def _history(self, ops: list[str]):
+        global _ACTIVE
+        await self._setup()
+        try:
+            for line in ops:
+                w = line.split()
+                if w[0] == "adv":
+                    await self._advance(line, int(w[1]))
+                    continue
+                try:
+                    out = await self._exec(w)
+                except Exception as exc:  # an exception class the model does not know is itself a disagreement
+                    out = f"X:{type(exc).__name__}"
+                await self._rec(line, out)
+                if self._sweep_t == CLOCK.t:
+                    self._bump("command_at_the_instant_of_a_sweep_after_it")
+                self._cmd_since_sweep = True
+                self._cmd_t = CLOCK.t
+                for g in self._take_groups():
+                    # background activity while a command was under way (Memory's commands never suspend)
+                    self._bump("sweep_inside_command")
+                    await self._sweep(g)
+            if hasattr(self.api, "close"):
+                await self.api.close()
+        finally:
+            _ACTIVE = None
+        return self.recs
+
+    async def run(self, ops: list[str]) -> list[tuple[str, str]]:
+        return [(r["line"], r["out"]) for r in await self._history(ops)]
 
     async def present_keys(self, n: int) -> list[int]:
         """which of the keys 0..n-1 the store physically holds (raw, non-touching probe)"""
@@ -211,7 +400,16 @@ ADVS = [0, 1, 4, 7, 8, 8, 9, 16, 40, 160]
 VALS = ["i:-1", "i:0", "i:1", "i:2", "i:3", "t:0", "t:1", "t:2", "t:3", "n"]
 
 
-def gen_history(rng, nkeys: int, maxlen: int, weights: dict | None = None) -> list[str]:
+# "phase-locked" alphabets for configurations with the purge task: every time advance is a multiple of the purge
+# interval (8 ticks) or an idle yield, so the harness task always wakes at the very instant of a purge tick, before or
+# after the purge task (timer order), and an `adv 0` lets the purge task take exactly one step: application commands
+# land right before a sweep, right after it, and - should a sweep ever suspend part-way - in the middle of it.
+PHASE_ADVS = [0, 0, 0, 8, 8, 8, 16]
+PHASE_TTLS = ["-", "1", "4", "8", "8", "8", "16", "16"]
+
+
+def gen_history(rng, nkeys: int, maxlen: int, weights: dict | None = None, advs=None, ttls=None) -> list[str]:
+    ADVS, TTLS = advs or globals()["ADVS"], ttls or globals()["TTLS"]
     n = rng.randint(1, maxlen)
     ops = []
     k = lambda: str(rng.randrange(nkeys))
